@@ -69,7 +69,9 @@ Proof. reflexivity. Qed.
 Lemma own_update b y : gen_own_update_y_X base mem B_set_y B_set_cutoff b y = base_upd b y.
 Proof.
   unfold gen_own_update_y_X, gen_own_set_cutoff, base_upd. destruct y as [|p y]; [reflexivity|].
-  replace (Z.of_nat (length (p :: y)) >? 0) with true by (cbn [length]; lia). reflexivity.
+  (* whatever way the source writes "the batch is not empty" *)
+  match goal with |- (if ?c then _ else _) = _ => replace c with true by (cbn [length]; lia) end.
+  reflexivity.
 Qed.
 
 Section Bridge.
@@ -253,7 +255,7 @@ Section Bridge.
   Proof.
     unfold G_pipe_update, gen_pipe_update. cbv zeta. rewrite own_update.
     destruct y as [|p0 y0]; [reflexivity|].
-    replace (Z.of_nat (length (p0 :: y0)) =? 0) with false by (cbn [length]; lia).
+    match goal with |- (if ?c then _ else _) = _ => replace c with false by (cbn [length]; lia) end.
     assert (Hy : p0 :: y0 <> []) by discriminate. revert Hy. generalize (p0 :: y0). intros y Hy.
     rewrite (update_pipe_nonempty leaf lpar lfit tr tpar tupd tapp thasupd reg rpar b ts f y up Hy).
     change (gen_iter_transformers tstateT false ts) with ts.
